@@ -114,39 +114,45 @@ def run_harness(h, cfile, workdir, cfg, tier='quick'):
         with open(os.path.join(hd, 'instrument.log'), 'w') as fh:
             fh.write(out + err)
         target = gb2
-    cmd = ['cbmc', '--sat-solver', 'cadical', '--no-malloc-may-fail'] + CBMC_CHECKS + ['--json-ui', '--trace']
+    cmd = ['cbmc', '--sat-solver', 'cadical', '--no-malloc-may-fail'] + CBMC_CHECKS
     if h['unwind']:
         cmd += ['--unwind', str(h['unwind']), '--unwinding-assertions']
     cmd += [f for f in (h['flags'] + cfg.get('cbmc_flags', [])) if f]
     cmd += [target]
     res['cmds'].append(' '.join(cmd))
+    # plain-text UI: the JSON UI builds a full trace for every failed property (the vacuity canary always fails)
     rc, out, err, dt = sh(cmd, timeout=h['timeout'] * (3 if tier == 'thorough' else 1), mem_gb=h['mem'])
-    with open(os.path.join(hd, 'cbmc.json'), 'w') as fh:
-        fh.write(out)
+    with open(os.path.join(hd, 'cbmc.log'), 'w') as fh:
+        fh.write(out + '\n--- stderr ---\n' + err)
     res['wall_s'] = time.time() - t0
     res['solver_s'] = dt
+    alltext = out + err
     if rc == -9:
         res['status'] = 'timeout'
         res['detail'] = 'cbmc timed out after %ds' % h['timeout']
         return res
-    try:
-        msgs = json.loads(out)
-    except Exception:
-        res['detail'] = 'cbmc output not JSON (rc=%s): %s' % (rc, (out + err)[-2000:])
-        if 'std::bad_alloc' in out + err or 'MemoryError' in out + err or rc in (-6, 134, 137, -11):
-            res['status'] = 'oom'
+    if 'Out of memory' in alltext or 'std::bad_alloc' in alltext or rc in (-6, 134, 137, -11):
+        res['status'] = 'oom'
+        res['detail'] = 'cbmc ran out of memory (limit %s GB) or crashed (rc=%s)' % (h['mem'], rc)
         return res
-    results = None
-    texts = []
-    for m in msgs:
-        if isinstance(m, dict):
-            if 'result' in m:
-                results = m['result']
-            if 'messageText' in m:
-                texts.append(m['messageText'])
-    alltext = '\n'.join(texts)
-    if results is None:
-        res['detail'] = 'no result block (rc=%s): %s' % (rc, alltext[-2500:])
+    results = []
+    curfile = curfn = None
+    for line in out.split('\n'):
+        m = re.match(r'^(\S+) function (\S+)$', line.strip())
+        if m:
+            curfile, curfn = m.group(1), m.group(2)
+            continue
+        m = re.match(r'^\[(\S+)\] line (\d+) (.*): (SUCCESS|FAILURE|UNKNOWN|ERROR)$', line.strip())
+        if m:
+            results.append({'property': m.group(1), 'description': m.group(3), 'status': m.group(4),
+                            'sourceLocation': {'file': curfile, 'function': curfn, 'line': m.group(2)}})
+            continue
+        m = re.match(r'^\[(\S+)\] (.*): (SUCCESS|FAILURE|UNKNOWN|ERROR)$', line.strip())
+        if m:
+            results.append({'property': m.group(1), 'description': m.group(2), 'status': m.group(3),
+                            'sourceLocation': {'file': curfile, 'function': curfn, 'line': None}})
+    if 'VERIFICATION SUCCESSFUL' not in out and 'VERIFICATION FAILED' not in out:
+        res['detail'] = 'cbmc gave no verdict (rc=%s): %s' % (rc, alltext[-2500:])
         return res
     if re.search(r'no body for (function|callee)', alltext):
         missing = sorted(set(re.findall(r'no body for (?:function|callee) (\S+)', alltext)))
@@ -172,6 +178,19 @@ def run_harness(h, cfile, workdir, cfg, tier='quick'):
                                   'file': loc.get('file'), 'line': loc.get('line'), 'function': loc.get('function'),
                                   'trace': summarise_trace(r.get('trace', []))})
     res['canary'] = canary_ok
+    # second pass: counterexample traces for (at most three) failed obligations only
+    if res['failed'] and os.environ.get('VERIF_NO_TRACE') != '1':
+        for f in res['failed'][:3]:
+            c2 = [c for c in cmd if c != target] + ['--json-ui', '--trace', '--property', f['property'], target]
+            rc2, out2, err2, dt2 = sh(c2, timeout=min(600, h['timeout']), mem_gb=h['mem'])
+            try:
+                for m in json.loads(out2):
+                    if isinstance(m, dict) and 'result' in m:
+                        for r in m['result']:
+                            if r.get('property') == f['property'] and r.get('trace'):
+                                f['trace'] = summarise_trace(r['trace'])
+            except Exception:
+                pass
     if h['enforce'] and h['loopc']:
         res['loop_obligations'] = sum(1 for r in results if 'loop invariant' in r.get('description', '').lower() or 'loop_invariant' in (r.get('property') or ''))
     if res['failed']:
